@@ -10,7 +10,8 @@ Open Scope list_scope.
 
 Inductive dep := DLib (id : bytes) | DRel (p : bytes) | DUri (u : bytes).
 Inductive kind :=
-| KLib (pkg : bytes) (bins : list bytes)     (* component buildpack with a Cargo.toml: root package name, bin targets *)
+| KLib (pkg : bytes) (bins : list bytes) (pdeps : list bytes)   (* component buildpack with a Cargo.toml: root package name, bin targets,
+                                                                  ids its own package.toml (if any) names as libcnb: dependencies *)
 | KComp (uri os : bytes) (deps : list dep)    (* composite buildpack: its package.toml's buildpack uri, platform os, dependencies *)
 | KOther.                                    (* component buildpack that is not a Rust project *)
 Record bp := mkBp { b_dir : bytes; b_id : bytes; b_kind : kind }.     (* b_dir: relative to the workspace root *)
@@ -39,6 +40,7 @@ Definition packable (x : bp) : bool := match b_kind x with KOther => false | _ =
 Definition lib_deps (x : bp) : list bytes :=
   match b_kind x with
   | KComp _ _ deps => flat_map (fun d => match d with DLib id => [id] | _ => [] end) deps
+  | KLib _ _ pdeps => pdeps
   | _ => []
   end.
 
@@ -85,7 +87,7 @@ Definition missing_dep (ws : list bp) : bool :=
   existsb (fun x => existsb (fun d => negb (mem_id d (map b_id nodes))) (lib_deps x)) nodes.
 
 Definition bins_ok (x : bp) : bool :=
-  match b_kind x with KLib pkg bins => match main_bin pkg bins with Some _ => true | None => false end | _ => true end.
+  match b_kind x with KLib pkg bins _ => match main_bin pkg bins with Some _ => true | None => false end | _ => true end.
 
 (* ---------- what a packaged directory holds ---------- *)
 Inductive entry :=
@@ -118,7 +120,7 @@ Section Tree.
 
   Definition tree (i : inv) (x : bp) : list (bytes * entry) :=
     match b_kind x with
-    | KLib pkg bins =>
+    | KLib pkg bins _ =>
         match main_bin pkg bins with
         | Some m =>
             [(b "buildpack.toml", ESameToml); (b "bin", EDir); (b "bin/build", EBin m); (b "bin/detect", ELink (b "build"));
